@@ -280,6 +280,33 @@ def l1(ctx):
                     alls = [c for c in g_.calls if c.callee and c.callee.name == "all"]
                     rec = any(x[0] == "fnconst" and str(x[1]).endswith("is_ground") for c in alls for a in c.args for x in role_walk(g_.role_of_operand(a)))
                     okg = len(falses) == 1 and bool(alls) and rec
+                    if not okg:
+                        # loop form: `let ENode(_, children) = p else { return false }; for c in children { if !c.is_ground() { return false } } true`
+                        lps_ = C.iterator_loops(g_)
+                        if len(lps_) == 1:
+                            sb_, it_, none_e, some_e, _cs = lps_[0]
+                            okl = True
+                            seen_t = False
+                            for d in g_.defs().get(0, []):
+                                v_ = C.const_bool(d["rv"]) if d["kind"] == "assign" else None
+                                if v_ is True:
+                                    seen_t = True
+                                    okl = okl and g_.dominated_by(d["bb"], none_e)        # `true` only once every child was examined
+                                elif v_ is not False:
+                                    okl = False                                             # (false is the safe answer anywhere)
+                            recs = [c for c in g_.calls if c.callee and c.callee.target == g_.id and not g_.blocks[c.bb]["cleanup"] and c.bb in C.loop_body(g_, lps_[0])]
+                            okl = okl and seen_t and len(recs) == 1 and g_.must_pass(some_e, [sb_], {recs[0].bb})
+                            if okl:
+                                # after a child that is not ground the loop is never continued
+                                for swb in g_.switch_blocks():
+                                    rr_ = strip_role(g_.role_of_operand(g_.blocks[swb]["term"]["discr"]))
+                                    neg = isinstance(rr_, tuple) and rr_[0] == "un" and rr_[1] == "Not"
+                                    if neg:
+                                        rr_ = strip_role(rr_[2])
+                                    if isinstance(rr_, tuple) and rr_[0] == "call" and len(rr_) > 4 and rr_[4] == recs[0].bb:
+                                        bad_edges = C.variant_edges(g_, swb, 1 if neg else 0)
+                                        okl = okl and bool(bad_edges) and sb_ not in g_.reach(bad_edges)
+                                        okg = okl
                 if okc and okg and callers:
                     why = "every parser caller is guarded by is_ground(pattern) (which is false for PVar/Subst and recurses over all children)"
             if why is not None:
